@@ -125,6 +125,16 @@ def host_tables(ctx):
     wm = Worker()
     try:
         base = {name: wm.r("optable", version=v, variant=var) for name, v, var in keys}
+        # ... nor on which table was asked for before: the same process, asked again in reverse order
+        for name, v, var in reversed(keys):
+            again = wm.r("optable", version=v, variant=var)
+            rep.count(1, ("table-order", name))
+            if again != base[name]:
+                a, b = base[name].get("attrs") or {}, again.get("attrs") or {}
+                diff = sorted(k for k in set(a) | set(b) if a.get(k) != b.get(k)) or ["(whole answer)"]
+                rep.violation("table-order:%s" % name, "get_opcode_module(%s, %s) answers differently when asked again after the other tables (differs in %s)"
+                              % (v, var, diff[:6]), {"table": name, "call": "get_opcode_module for every table in order, then again in reverse order", "attributes": diff[:20]})
+                break
     finally:
         wm.close()
     # ... and not on how the host runs: an interpreter started with -O / PYTHONOPTIMIZE=1 drops assert statements
